@@ -268,7 +268,16 @@ impl Position {
                     // NOTE: lines are directional, so we don't want to set x1/y1 from the bbox
                     // if they're already set, but we do need to add dx/dy to any existing attrs.
                     let zstr = "0".to_owned();
+                    // A line written with x1 / y1 / x2 / y2 only is plain SVG: an end which is
+                    // not given is at 0 there (`x2="10" y2="5"` is the line from the origin,
+                    // not the point 10 5), so nothing is filled in.
+                    let plain_svg = [self.cx, self.cy, self.width, self.height, self.dx, self.dy]
+                        .iter()
+                        .all(|v| v.is_none());
                     let (x1, y1) = bbox.locspec(LocSpec::TopLeft);
+                    if plain_svg {
+                        return;
+                    }
                     if element.get_attr("x1").is_none() {
                         element.set_attr("x1", &fstr(x1 + self.dx.unwrap_or(0.)));
                     } else if let Some(dx) = self.dx {
